@@ -180,6 +180,10 @@ def run(ck: Check, prog: Program) -> None:
             ck.finding('VALID-PURE', w.func.qualname, f'{w.why} on {w.target.split(":")[0]} state: {w.text[:50]}', w.func.module.rel, w.line,
                        f'`{w.text}` writes validator state that outlives the call ({w.target}): whether a later call of ANOTHER method is admitted then '
                        f'depends on which methods were validated before (options leak between methods sharing the validator)')
+    # the validated arguments reach the call unchanged and the context parameter is neither client-settable nor validated
+    from .c04 import _ctx_rules
+    for b_ in bind_methods(prog):
+        _ctx_rules(ck, prog, b_)
     _signature_filter(ck, prog)
     _same_signature(ck, prog)
     _coerce(ck, prog)
